@@ -412,6 +412,25 @@ func C09(run *hx.Run) {
 						}
 						return d, func() { d.Close(); os.Remove(link) }, nil
 					}},
+					{"fresh-handle-through-symlinked-directory", func() (*sqlittle.DB, func(), error) {
+						// <links>/dirlink -> <wdir>/sub ; the name <links>/dirlink/../v.sqlite is the real file (the kernel resolves
+						// the link before the ..), while a lexical clean-up of the name gives <links>/v.sqlite, which does not exist
+						ldir := filepath.Join(wdir, "links")
+						os.MkdirAll(ldir, 0o755)
+						os.MkdirAll(filepath.Join(wdir, "sub"), 0o755)
+						dl := filepath.Join(ldir, "dirlink")
+						os.Remove(dl)
+						if err := os.Symlink(filepath.Join(wdir, "sub"), dl); err != nil {
+							return nil, nil, err
+						}
+						name := dl + "/../" + filepath.Base(orig)
+						d, err := sqlittle.Open(name)
+						if err != nil {
+							os.Remove(dl)
+							return nil, func() {}, errRefusedAtOpen
+						}
+						return d, func() { d.Close(); os.Remove(dl) }, nil
+					}},
 					{"fresh-handle-with-foreign-reader", func() (*sqlittle.DB, func(), error) {
 						lh, err := hx.StartLockHolder(orig, "shared:RD")
 						if err != nil {
@@ -443,7 +462,7 @@ func C09(run *hx.Run) {
 						run.See("first_call_on_unused_handle", verOps[t.k%len(verOps)])
 					}
 					// whatever the outcome, a finished call leaves no lock of ours behind
-					if ex.kind != "fresh-handle-with-foreign-reader" && ex.kind != "fresh-handle-through-symlink" {
+					if ex.kind != "fresh-handle-with-foreign-reader" && !strings.HasPrefix(ex.kind, "fresh-handle-through-") {
 						if locks, err := hx.FileLocks(orig); err == nil {
 							for _, l := range locks {
 								if l.Pid == os.Getpid() {
